@@ -450,3 +450,23 @@ func SignAttrs(key *rsa.PrivateKey, s *Signer) ([]byte, error) {
 	h := sha256.Sum256(tbs)
 	return rsa.SignPKCS1v15(nil, key, crypto.SHA256, h[:])
 }
+
+// CertList parses the embedded certificates (those that parse).
+func (sd *SD) CertList() []*x509.Certificate {
+	if sd.Certs == nil {
+		return nil
+	}
+	var out []*x509.Certificate
+	rest := sd.Certs.Value()
+	for len(rest) > 0 {
+		n, r, err := der.Parse(rest, der.Options{})
+		if err != nil {
+			break
+		}
+		if c, err := x509.ParseCertificate(n.RawBytes()); err == nil {
+			out = append(out, c)
+		}
+		rest = r
+	}
+	return out
+}
